@@ -48,5 +48,7 @@ def run(rep, tier):
     rep.rule("R-BDF-DENSE", "BDF dense block: for every order the slots BDF::solve fills with backward differences are exactly the slots BDF::interpolate sums, slot s holding D_s (finite evaluation of the writer's guard and the reader's range)")
     interp_decided = any(r_ == "R-BDF-INTERP" for r_, k_, d_ in rep.discharged) and not any(x["rule"] == "R-BDF-INTERP" for x in rep.inconclusive)
     dense.r_bdf_dense(rep, f, semantic_backup=interp_decided)
+    rep.rule("R-XOUT-PREPARED", "whenever the callback is handed an interpolant the coefficient buffer behind it was filled for this step (the hand-out condition implies the condition of every block writing the buffer)")
+    C19.xout_prepared_rule(rep, f)
     rep.explanation = "End-point identities of every step interpolant (explicit methods) at proof level; segment = step taken."
     rep.trusted_base = ["rustc nightly HIR/typeck", "driver/ivp-facts", "engine/symx.py"]
